@@ -90,7 +90,9 @@ struct ElemSpec {
   bool neg_hemisphere; // represent quaternion blocks with w<0
   double lin_lo, lin_hi;  // log-uniform magnitude range of linear parts (0,0 => zeros)
   double norm_scale;      // rotation blocks are scaled by this (1 +- 0.9 eps = still accepted by the library)
-  ElemSpec() : angle(-1), neg_hemisphere(false), lin_lo(1e-3), lin_hi(10), norm_scale(1.0) {}
+  int exact;              // 1: half turn about a coordinate axis with w exactly +0 / -0 ((-1, +-0) for complex blocks)
+                          // 2: quarter turn about a coordinate axis (s,0,0,s), s = sqrt(1/2) rounded ((0, 1) for complex blocks)
+  ElemSpec() : angle(-1), neg_hemisphere(false), lin_lo(1e-3), lin_hi(10), norm_scale(1.0), exact(0) {}
 };
 void gen_elem(const GroupVT* vt, Rng& r, const ElemSpec& sp, double* c);
 // seeded choice of the corner cases every pool should contain: tiny angles in both hemispheres, angle near pi,
